@@ -210,3 +210,109 @@ fn c06_octal_escape_3() {
     octal_escape_for("52", &[5, 2]);
 }
 
+
+// ---------------------------------------------------------------------------------------------
+// Simple escapes (bounded: one concrete escape letter per case, the literal kind symbolic)
+
+/// format!("\\{c}") stand-in: alloc::fmt::format through a fixed buffer writer (same text; avoids
+/// String growth of symbolic size inside core::fmt).
+fn fmt_small(args: std::fmt::Arguments<'_>) -> String {
+    struct B {
+        b: [u8; 8],
+        n: usize,
+    }
+    impl std::fmt::Write for B {
+        fn write_str(&mut self, s: &str) -> std::fmt::Result {
+            let by = s.as_bytes();
+            assert!(by.len() <= 6);
+            for i in 0..6 {
+                if i < by.len() {
+                    if self.n < 8 {
+                        self.b[self.n] = by[i];
+                    }
+                    self.n += 1;
+                }
+            }
+            Ok(())
+        }
+    }
+    let mut w = B { b: [0; 8], n: 0 };
+    let _ = std::fmt::write(&mut w, args);
+    assert!(w.n <= 8);
+    let mut out = String::with_capacity(8);
+    out.push_str(unsafe { std::str::from_utf8_unchecked(&w.b[..w.n]) });
+    out
+}
+
+/// parse_escaped_char on the text after a backslash; expect = the decoded text (None = error).
+fn simple_escape_case(after_backslash: &'static str, expect_text: Option<&'static [u8]>, expect_bytes_kind: Option<&'static [u8]>) {
+    let kind = any_kind();
+    let start: u32 = kani::any();
+    kani::assume(start <= u32::MAX - 64);
+    let mut p = StringParser::new(after_backslash, kind, false, TextSize::new(start), TextSize::new(start + 20));
+    let r = ManuallyDrop::new(p.parse_escaped_char());
+    let expect = if kind.is_any_bytes() { expect_bytes_kind } else { expect_text };
+    match (&*r, expect) {
+        (Ok(s), Some(e)) => {
+            let sb = s.as_bytes();
+            assert!(sb.len() == e.len());
+            for i in 0..4 {
+                if i < e.len() {
+                    assert!(sb[i] == e[i]);
+                }
+            }
+        }
+        (Err(_), None) => {}
+        _ => assert!(false),
+    }
+}
+
+// @ob id=C06.k.simple_escapes_a props=C06,C03 kind=bounded tier=quick timeout=900
+// @bound the escapes \\ \' \" \a \b \f, each in every literal kind (text, bytes, raw variants, f-string, u)
+// @clause simple escapes decode to their Python values in text and bytes literals: backslash, quotes, BEL, BS, FF
+// @fns StringParser::parse_escaped_char
+#[kani::proof]
+#[kani::unwind(8)]
+#[kani::stub(alloc::fmt::format, fmt_small)]
+fn c06_simple_escapes_a() {
+    simple_escape_case("\\", Some(b"\\"), Some(b"\\"));
+    simple_escape_case("'", Some(b"'"), Some(b"'"));
+    simple_escape_case("\"", Some(b"\""), Some(b"\""));
+    simple_escape_case("a", Some(b"\x07"), Some(b"\x07"));
+    simple_escape_case("b", Some(b"\x08"), Some(b"\x08"));
+    simple_escape_case("f", Some(b"\x0c"), Some(b"\x0c"));
+}
+
+// @ob id=C06.k.simple_escapes_b props=C06,C03 kind=bounded tier=quick timeout=900
+// @bound the escapes \n \r \t \v and backslash-newline, each in every literal kind
+// @clause simple escapes: LF, CR, TAB, VT; a backslash followed by a line break is a line continuation (decodes to nothing)
+// @fns StringParser::parse_escaped_char
+#[kani::proof]
+#[kani::unwind(8)]
+#[kani::stub(alloc::fmt::format, fmt_small)]
+fn c06_simple_escapes_b() {
+    simple_escape_case("n", Some(b"\n"), Some(b"\n"));
+    simple_escape_case("r", Some(b"\r"), Some(b"\r"));
+    simple_escape_case("t", Some(b"\t"), Some(b"\t"));
+    simple_escape_case("v", Some(b"\x0b"), Some(b"\x0b"));
+    simple_escape_case("\n", Some(b""), Some(b""));
+}
+
+// @ob id=C06.k.unknown_escapes props=C06,C03,C04 kind=bounded tier=quick timeout=900
+// @bound the unknown escapes \q \8 \. in every kind; \u \U \N in bytes kinds; a non-ASCII character after the backslash
+// @clause unknown escapes are kept verbatim (backslash + character); \u \U \N are not escapes in bytes literals (kept verbatim there); a non-ASCII character after a backslash in a bytes literal is rejected (bytes can only contain ASCII), in a text literal it is kept
+// @fns StringParser::parse_escaped_char
+#[kani::proof]
+#[kani::unwind(8)]
+#[kani::stub(alloc::fmt::format, fmt_small)]
+fn c06_unknown_escapes() {
+    simple_escape_case("q", Some(b"\\q"), Some(b"\\q"));
+    simple_escape_case("8", Some(b"\\8"), Some(b"\\8"));
+    simple_escape_case(".", Some(b"\\."), Some(b"\\."));
+    simple_escape_case("\u{e9}", Some(b"\\\xc3\xa9"), None);
+    // \u \U \N: escapes in text literals (here without their digits/braces: an error), ordinary
+    // characters in bytes literals
+    simple_escape_case("u", None, Some(b"\\u"));
+    simple_escape_case("U", None, Some(b"\\U"));
+    simple_escape_case("N", None, Some(b"\\N"));
+}
